@@ -95,7 +95,7 @@ def main():
         nrand = 80
     else:
         vs = vectors(all_el, 3, (-2, -1, 0, 1, 2)) + vectors(core, 6, (-2, -1, 0, 1, 2))
-        nrand = 6000
+        nrand = 2000
     seen = set()
     uniq = []
     for v in vs:
@@ -106,7 +106,7 @@ def main():
     # random larger vectors (<= 12 atoms)
     for _ in range(nrand):
         v = {}
-        for _ in range(rng.randint(3, 7 if tier == "quick" else 10)):
+        for _ in range(rng.randint(3, 7 if tier == "quick" else 8)):
             e = rng.choice(core + ["H", "H", "O", "Br", "K", "P", "B", "C", "I"])
             v[e] = v.get(e, 0) + 1
         q = rng.choice((0, 0, 0, 1, -1, 2, -2, -3))
